@@ -164,7 +164,7 @@ private def tStr : Ty := .s (.basic .string)
 private def tN0 : Ty := .s (.named ⟨0, .int, [0]⟩)
 
 /-- the facts the extractor emits for the tree before the third round of repairs (ab398ff): every fact introduced or
-    flipped by 5877dba … f150e30 and 4bcc5b4 / 7402c20 at its old value. The "before" half of the regression examples. -/
+    flipped by 5877dba … f150e30 and 6f2f5cf / e6c1f4a at its old value. The "before" half of the regression examples. -/
 def factsBeforeRound3 : TcFacts :=
   { Expected.C12.tcFacts with
     ops := { Expected.C12.opFacts with convNilBoolGuard := false, assignNilGuard := false, constIfaceChecked := false },
